@@ -195,4 +195,98 @@ theorem bshape_into_trans (a m out : List Nat) (h1 : bshape a m = some m) (h2 : 
   simp only [Option.bind_some] at h
   rw [← h, h2]
 
+/-! ### least upper bound, antisymmetry -/
+
+theorem intoRev_of_bshapeRev : ∀ (s m : List Nat), bshapeRev s m = some m → intoRev s m = true
+  | [], _, _ => rfl
+  | a :: s, [], h => by simp [bshapeRev] at h
+  | a :: s, b :: m, h => by
+    simp only [bshapeRev] at h
+    cases hd : bdim a b with
+    | none => simp [hd] at h
+    | some d =>
+      cases hr : bshapeRev s m with
+      | none => simp [hd, hr] at h
+      | some r =>
+        simp only [hd, hr, Option.some.injEq, List.cons.injEq] at h
+        obtain ⟨h1, h2⟩ := h
+        subst h1 h2
+        simp only [intoRev, Bool.and_eq_true, Bool.or_eq_true, beq_iff_eq]
+        refine ⟨?_, intoRev_of_bshapeRev s r hr⟩
+        unfold bdim at hd
+        by_cases e : a = d
+        · exact Or.inr e
+        · simp only [e, if_false] at hd
+          by_cases e1 : a = 1
+          · exact Or.inl e1
+          · simp only [e1, if_false] at hd
+            by_cases e2 : d = 1
+            · simp only [e2, if_true, Option.some.injEq] at hd; omega
+            · simp [e2] at hd
+
+/-- Two shapes that broadcast into `o` broadcast together, into a shape that broadcasts into `o` (reversed lists). -/
+theorem bshapeRev_lub : ∀ (c a o : List Nat), intoRev c o = true → intoRev a o = true →
+    ∃ s, bshapeRev c a = some s ∧ intoRev s o = true
+  | [], a, o, _, h2 => ⟨a, by cases a <;> rfl, h2⟩
+  | c0 :: c, [], o, h1, _ => ⟨c0 :: c, rfl, h1⟩
+  | c0 :: c, a0 :: a, [], h1, _ => by simp [intoRev] at h1
+  | c0 :: c, a0 :: a, o0 :: o, h1, h2 => by
+    simp only [intoRev, Bool.and_eq_true, Bool.or_eq_true, beq_iff_eq] at h1 h2
+    obtain ⟨s, hs, hso⟩ := bshapeRev_lub c a o h1.2 h2.2
+    have hd : ∃ d, bdim c0 a0 = some d ∧ (d = 1 ∨ d = o0) := by
+      unfold bdim
+      rcases h1.1 with e1 | e1 <;> rcases h2.1 with e2 | e2
+      · subst e1 e2; exact ⟨1, by simp, Or.inl rfl⟩
+      · subst e1 e2
+        by_cases e : 1 = a0
+        · exact ⟨1, by simp [e], Or.inl rfl⟩
+        · exact ⟨a0, by simp [e], Or.inr rfl⟩
+      · subst e1 e2
+        by_cases e : c0 = 1
+        · exact ⟨c0, by simp [e], Or.inl e⟩
+        · exact ⟨c0, by simp [e], Or.inr rfl⟩
+      · rw [e1, e2]; exact ⟨o0, by simp, Or.inr rfl⟩
+    obtain ⟨d, hd1, hd2⟩ := hd
+    refine ⟨d :: s, by simp [bshapeRev, hd1, hs], ?_⟩
+    simp only [intoRev, Bool.and_eq_true, Bool.or_eq_true, beq_iff_eq]
+    exact ⟨hd2, hso⟩
+
+theorem bshape_some_rev (s t r : List Nat) : bshape s t = some r ↔ bshapeRev s.reverse t.reverse = some r.reverse := by
+  unfold bshape
+  cases bshapeRev s.reverse t.reverse with
+  | none => simp
+  | some q =>
+    simp only [Option.map_some, Option.some.injEq]
+    constructor
+    · intro h; rw [← h]; simp
+    · intro h; rw [h]; simp
+
+/-- **Least upper bound.** Two shapes that broadcast into `o` broadcast together, into a shape that broadcasts into `o`. -/
+theorem bshape_lub (c a o : List Nat) (h1 : bshape c o = some o) (h2 : bshape a o = some o) :
+    ∃ s, bshape c a = some s ∧ bshape s o = some o := by
+  have r1 := intoRev_of_bshapeRev _ _ ((bshape_some_rev c o o).mp h1)
+  have r2 := intoRev_of_bshapeRev _ _ ((bshape_some_rev a o o).mp h2)
+  obtain ⟨s, hs, hso⟩ := bshapeRev_lub _ _ _ r1 r2
+  refine ⟨s.reverse, (bshape_some_rev c a s.reverse).mpr (by simpa using hs), ?_⟩
+  exact (bshape_some_rev s.reverse o o).mpr (by simpa using bshapeRev_of_into _ _ hso)
+
+/-- Broadcasting into each other means equality. -/
+theorem bshape_antisymm (x y : List Nat) (h1 : bshape x y = some y) (h2 : bshape y x = some x) : x = y := by
+  rw [bshape_comm] at h2
+  rw [h1] at h2
+  exact (Option.some.inj h2).symm
+
+
+theorem intoRev_length : ∀ (s t : List Nat), intoRev s t = true → s.length ≤ t.length
+  | [], _, _ => Nat.zero_le _
+  | _ :: _, [], h => by simp [intoRev] at h
+  | a :: s, b :: t, h => by
+    simp only [intoRev, Bool.and_eq_true] at h
+    have := intoRev_length s t h.2
+    simp only [List.length_cons]; omega
+
+theorem bshape_into_length (x y : List Nat) (h : bshape x y = some y) : x.length ≤ y.length := by
+  have := intoRev_length _ _ (intoRev_of_bshapeRev _ _ ((bshape_some_rev x y y).mp h))
+  simpa using this
+
 end Ndx
